@@ -289,13 +289,14 @@ theorem copyInstWith_spec {cs : List ClassDesc} {h0 : Heap} (W : WorldOK cs h0) 
       generalize construct cd ha sp (.imm .none) = r3 at hc C
       obtain ⟨h3, init⟩ := r3
       simp only at hc
-      cases h4c : copyEachWith dc h3 o.slots with
+      cases h4c : copySlotsWith dc h3 [] o.slots with
       | none => simp [h4c] at hc
       | some r4 =>
-        obtain ⟨h4, ss4⟩ := r4
+        obtain ⟨h4, m4, ss4⟩ := r4
         simp only [h4c] at hc
         cases hc
-        obtain ⟨e4, B4, N4, K4⟩ := copyEachWith_spec S _ h3 h1 ss4 ((e.trans ea).trans C.ext) C.blk O h4c
+        obtain ⟨e4, B4, _, N4⟩ := copySlotsWith_spec S _ h3 [] h1 m4 ss4 ((e.trans ea).trans C.ext) C.blk
+          (MemoOK.nil _ _) O h4c
         refine ⟨(ea.trans C.ext).trans e4, B4, ?_⟩
         exact updated_new C e4 N4
 
